@@ -1,6 +1,7 @@
 import Restli.Proofs.EncodePerm
 import Restli.Proofs.EqualEncode
 import Restli.Proofs.GenEqualsFuel
+import Restli.Proofs.EncodeFuel
 /-! # C09 — deterministic, canonical serialization (v2)
 
 The writer model sorts the entries of every object by key (`EncCfg.sortKeys`, what v2's
@@ -90,6 +91,23 @@ theorem c09_equal_values_encode_identically (c : EncCfg) (hs : c.sortKeys = true
     (he : valueEqZ c.env f ty a b = true) (h : encode c f scope ty a = .ok d) :
     encode c f scope ty b = .ok d :=
   encCong c hs f scope ty a b d ha hb he h
+
+/-- **one value, one document**: the writer model's depth budget is not part of the result — a
+document produced at some budget is produced at every larger one (the Go writer has no budget) -/
+theorem c09_encoding_independent_of_budget (c : EncCfg) (f g : Nat) (hfg : f ≤ g) (scope : List Bytes)
+    (ty : Ty) (v : Value) (d : Doc) (h : encode c f scope ty v = .ok d) :
+    encode c g scope ty v = .ok d :=
+  encode_fuel_mono c f g hfg scope ty v d h
+
+/-- hence any two successful evaluations of the writer on one value agree -/
+theorem c09_encoding_unique (c : EncCfg) (f g : Nat) (scope : List Bytes) (ty : Ty) (v : Value)
+    (d₁ d₂ : Doc) (h₁ : encode c f scope ty v = .ok d₁) (h₂ : encode c g scope ty v = .ok d₂) :
+    d₁ = d₂ := by
+  rcases Nat.le_total f g with hfg | hgf
+  · have := encode_fuel_mono c f g hfg scope ty v d₁ h₁
+    rw [h₂] at this; exact (Except.ok.inj this).symm
+  · have := encode_fuel_mono c g f hgf scope ty v d₂ h₂
+    rw [h₁] at this; exact Except.ok.inj this
 
 /-- the depth budgets of the two models are independent artefacts: equality judged at any budget
 `f` gives the same document at any writer budget `g ≥ f` -/
